@@ -83,26 +83,45 @@ def t2_htable(res, tier, broken):
     rounds, nops = (6, 800) if tier == "quick" and not broken else (60, 4000)
     total = collections.Counter()
     nl = 0
-    for r in range(rounds):
+    def impl_violates(ls):
+        rc, out_c, err = D.run_lines([exe], ls)
+        if rc != 0:
+            return "implementation aborted (sanitizer/assert): " + err[-800:]
+        return htable_oracle(ls, out_c)
+
+    first_disagreement = None
+    r = 0
+    while r < rounds:
         lines, hist = gen_htable_ops(rng, nops)
         total.update(hist)
         nl += len(lines)
+        r += 1
         d = D.compare("htable", exe, lines)
-        if r == 0:
+        if r == 1:
             res.sample({"htable_ops": lines[:12]})
         if d is None:
             continue
-        small = D.ddmin(lines, lambda ls: D.compare("htable", exe, ls) is not None, keep_prefix=1)
-        d2 = D.compare("htable", exe, small) or d
-        rc, out_c, err = D.run_lines([exe], small)
-        why = htable_oracle(small, out_c) if rc == 0 else "implementation aborted (sanitizer/assert): " + err[-800:]
-        rep = {"correspondence": "T2 htable (harness/wb_htable.c vs Model.HTable)", "ops": small, "disagreement": d2,
-               "impl_output": out_c, "oracle": why}
-        if why:
-            res.violation("hashtable does not behave as a map: " + why, rep)
-        else:
-            res.violation("T2 htable correspondence broken (implementation still map-like on this input)", rep, no_input=True)
-        break
+        # the tie is broken.  Does the implementation's own output contradict the property on this history (not only
+        # at the first point where it differs from the model)?
+        if impl_violates(lines):
+            small = D.ddmin(lines, lambda ls: impl_violates(ls) is not None, keep_prefix=1)
+            why = impl_violates(small)
+            rc, out_c, err = D.run_lines([exe], small)
+            res.violation("hashtable does not behave as a map: " + why,
+                          {"correspondence": "T2 htable (harness/wb_htable.c vs Model.HTable)", "ops": small,
+                           "disagreement": D.compare("htable", exe, small) or d, "impl_output": out_c, "oracle": why})
+            first_disagreement = None
+            break
+        if first_disagreement is None:
+            small = D.ddmin(lines, lambda ls: D.compare("htable", exe, ls) is not None, keep_prefix=1)
+            rc, out_c, err = D.run_lines([exe], small)
+            first_disagreement = {"correspondence": "T2 htable (harness/wb_htable.c vs Model.HTable)", "ops": small,
+                                  "disagreement": D.compare("htable", exe, small) or d, "impl_output": out_c, "oracle": None}
+            rounds = max(rounds, 60)      # keep searching for a history on which the map property itself fails
+            nops = 4000
+    if first_disagreement is not None:
+        res.violation("T2 htable correspondence broken (implementation still map-like on every explored history)", first_disagreement,
+                      no_input=True)
     res.add_cov(programs=rounds, disagreements_checked=nl, htable_op_histogram=dict(total))
 
 
